@@ -19,3 +19,11 @@ Proof.
   intros name p t o Hin Hx. apply (well_locked_sound p) with (o := o); [|exact Hx].
   pose proof cache_well_locked as H. rewrite forallb_forall in H. apply (H (name, p) Hin).
 Qed.
+
+(* item.key / item.value are read outside the critical section (Get's result,
+   OnDelete's arguments); that is race-free only if they are never written after
+   the item is published: the only writes are the initialisation of the local
+   item [it] in Set, before it is stored in the map. *)
+Lemma cache_item_fields_immutable :
+  flat_map (fun m => ops_of (snd m) "field-write") gen_cache_methods = ["it.key"; "it.value"]%string.
+Proof. vm_compute. reflexivity. Qed.
